@@ -30,7 +30,9 @@ Definition chunk_tag_name (chunk : str) : str := strip_tag_chars (first_word (be
 (* tag_info: tag_text.split()[0].strip('<>/') *)
 Definition tag_info_name (t : str) : str := strip_tag_chars (first_word t).
 
-Definition is_block_name (name : str) : bool := mem_str name Tables.block_level_tags || str_eqb name [97].
+(* name in block_level_tags or name in ('a', 'button') *)
+Definition is_block_name (name : str) : bool :=
+  mem_str name Tables.block_level_tags || str_eqb name [97] || str_eqb name (s2l "button").
 
 Definition tracks_open (name : str) : bool :=
   negb (mem_str name Tables.undiffable_content_tags) && negb (mem_str name Tables.empty_tags).
